@@ -1,16 +1,33 @@
 #!/usr/bin/env python3
-"""Print the DESIGN.md table 'seeded changes and which check catches them' from seeded/*/meta.json"""
-import glob, json, os
+"""Print the DESIGN.md table 'seeded changes and which check catches them' from seeded/*/meta.json.
+first run = the check as it stood when the change arrived; now = the latest re-evaluation
+(tools/reeval_seeded.sh) against the current checks and /repo HEAD."""
+import glob, json, os, sys
+
+
+def how(c):
+    if not c:
+        return "-"
+    res = c.get("check_result", "")
+    if not c.get("detected"):
+        return "missed"
+    return "VIOLATION (no-failing-input-found)" if "no-failing-input-found" in res else "VIOLATION + failing input"
+
+
 rows = []
-for d in sorted(glob.glob('/verif/seeded/*/')):
-    m = json.load(open(os.path.join(d, 'meta.json')))
-    c = m.get('confirmed', {})
-    res = c.get('check_result', '')
-    how = 'VIOLATION' + (' (no-failing-input-found)' if 'no-failing-input-found' in res else ' with failing input') if c.get('detected') else 'MISSED'
-    rows.append((os.path.basename(d.rstrip('/')), m.get('property'), m.get('summary', '').replace('|', '/')[:150],
-                 str(m.get('needs', '')).replace('|', '/')[:110], how))
-print('| id | property | change | needs | ./check result |')
-print('|---|---|---|---|---|')
-for r in rows:
-    print('| ' + ' | '.join(r) + ' |')
-print(f"\n{sum(1 for r in rows if r[4].startswith('VIOLATION'))} of {len(rows)} seeded changes detected.")
+for d in sorted(glob.glob("/verif/seeded/*/")):
+    m = json.load(open(os.path.join(d, "meta.json")))
+    c = m.get("confirmed", {})
+    rows.append((os.path.basename(d.rstrip("/")), m.get("summary", "").replace("|", "/")[:170],
+                 str(m.get("needs", "")).replace("|", "/")[:120], how(c), how(c.get("recheck"))))
+try:
+    print("| id | change | needs | first run | now |")
+    print("|---|---|---|---|---|")
+    for r in rows:
+        print("| " + " | ".join(r) + " |")
+    first = sum(1 for r in rows if r[3].startswith("VIOLATION"))
+    now = sum(1 for r in rows if r[4].startswith("VIOLATION"))
+    print(f"\n{len(rows)} seeded changes; detected on first run: {first}; detected by the current checks: {now}"
+          f" (not yet re-evaluated: {sum(1 for r in rows if r[4] == '-')}).")
+except BrokenPipeError:
+    sys.exit(0)
